@@ -19,11 +19,13 @@ Conformance (R, metamorphic - no rule model involved): every selected graph is r
       test package: the raw per-variant verdicts go through UnusedObs.tla (VariantReported) and the
       real `lintcmd` output (in-process lintcmd.Command and the real staticcheck binary, -tests on/off)
       must be exactly that set; nothing that is used in some variant may be reported.
-Corpora: unused/testdata and repository packages with files renamed and declarations permuted.
+Corpora: unused/testdata, repository packages and the hand-written shapes module (harness/cmd/h-unused/testdata/shapes)
+with files renamed and declarations permuted.
 """
 import itertools
 import json
 import os
+import re
 import shutil
 from collections import Counter
 
@@ -369,6 +371,13 @@ REPO_PKGS_THOROUGH = REPO_PKGS_QUICK + ["analysis/edit", "internal/sync", "lintc
                                         "analysis/lint", "analysis/report", "go/loader", "simple", "stylecheck", "go/ir", "knowledge"]
 
 
+SHAPES = os.path.join(vlib.HARNESS, "cmd", "h-unused", "testdata", "shapes")
+
+# cmd/cgo derives the names of its generated objects from a hash of the source text (_cgo_0c2830a4819a_Cfunc_f,
+# _cgoexp_0c2830a4819a_f); permuting the declarations changes the text, so the hash is not part of the identity
+CGO_HASH = re.compile(r"(_cgo(?:exp)?_)[0-9a-f]{12}_")
+
+
 def corpus_counter(out):
     res = {}
     for raw in out.get("raw") or []:
@@ -378,7 +387,7 @@ def corpus_counter(out):
         c = Counter()
         for st in ("used", "unused", "quiet"):
             for o in raw.get(st) or []:
-                c["%s %s %s" % (o["kind"], o["name"], st)] += 1
+                c["%s %s %s" % (o["kind"], CGO_HASH.sub(r"\1H_", o["name"]), st)] += 1
         res[raw["id"]] = c
     return res
 
@@ -405,15 +414,23 @@ def run_corpora(ctx, helper):
         for fn in sorted(os.listdir(sd)):
             if fn.endswith(".go") and not fn.endswith("_test.go"):
                 shutil.copy(os.path.join(sd, fn), os.path.join(dd, fn))
+    # the hand-written shapes module (every numbered rule of unused.go outside the vocabulary of Unused.tla; most
+    # packages have 2-3 files so that file order and declaration order both matter)
+    sorig = ctx.tmp("corp-shapes")
+    shutil.copytree(SHAPES, sorig, dirs_exist_ok=True)
     modes = [("both", ctx.seed)] if ctx.quick else [("both", ctx.seed), ("both", ctx.seed + 100), ("files", ctx.seed), ("decls", ctx.seed), ("reverse", 0)]
+    # shapes is tiny: the deterministic reversal (declarations of every file and the lexical order of the files) runs in
+    # the quick tier too, so that an order dependence between two declarations does not hinge on the seeded shuffle
+    modes_shapes = [("both", ctx.seed), ("reverse", 0)] if ctx.quick else modes + [("both", ctx.seed + 200), ("decls", ctx.seed + 100), ("files", ctx.seed + 100)]
     samples = []
-    for tag, o, flags in (("testdata", orig, ["-raw", "-tests"]), ("repo", rorig, ["-raw"])):
-        cache = ctx.tmp("corp-cache-" + tag)
+    for tag, o, flags in (("testdata", orig, ["-raw", "-tests"]), ("repo", rorig, ["-raw"]), ("shapes", sorig, ["-raw", "-tests"])):
+        # shapes shares the cache of testdata (same std dependencies)
+        cache = ctx.tmp("corp-cache-" + ("testdata" if tag == "shapes" else tag))
         base = corpus_counter(ug.run_helper(ctx, helper, o, flags, cache=cache))
         ok = [k for k, v in base.items() if v is not None]
-        if len(ok) < (40 if tag == "testdata" else 3):
+        if len(ok) < {"testdata": 40, "repo": 3, "shapes": 38}[tag]:
             raise Inconclusive("corpus %s: only %d packages analysed" % (tag, len(ok)))
-        for mode, seed in modes:
+        for mode, seed in (modes_shapes if tag == "shapes" else modes):
             dst = ctx.tmp("corp-%s-%s-%d" % (tag, mode, seed))
             rc, so, se = vlib.sh([helper, "-permute", o, "-permute-dst", dst, "-permute-seed", str(seed), "-permute-mode", mode])
             if rc != 0:
@@ -429,11 +446,16 @@ def run_corpora(ctx, helper):
                 if pc[pid] != base[pid]:
                     only_o = sorted((base[pid] - pc[pid]).elements())
                     only_p = sorted((pc[pid] - base[pid]).elements())
-                    ctx.violation(vlib.canon_key({"corpus": tag, "pkg": pid}) + "-corpus",
+                    key = vlib.canon_key({"corpus": tag, "pkg": pid})
+                    if tag == "shapes":
+                        key = "shapes-%s-%s" % (pid.split(" ")[0].split("/")[-1], key)
+                    ctx.violation(key + "-corpus",
                                   "U1000 verdict of %s changes when files/declarations are permuted (%s): only original %s, only permuted %s" % (pid, mode, only_o[:6], only_p[:6]),
                                   {"kind": "corpus", "corpus": tag, "pkg": pid, "mode": mode, "pseed": seed, "only_original": only_o, "only_permuted": only_p})
             shutil.rmtree(dst, ignore_errors=True)
-        samples.append({"corpus": tag, "packages": len(ok), "objects": sum(sum(v.values()) for v in base.values() if v), "modes": modes})
+        samples.append({"corpus": tag, "packages": len(ok), "objects": sum(sum(v.values()) for v in base.values() if v),
+                        "modes": modes_shapes if tag == "shapes" else modes})
+        stats["corpus_packages_" + tag] = len(ok)
     if stats["corpus_permuted_copy_failed"] * 5 > stats["corpus_analyses"]:
         raise Inconclusive("too many permuted corpus copies failed to build")
     return stats, samples
@@ -556,7 +578,8 @@ def run(ctx):
         "trusted_base": ["TLC", "go toolchain (go list, go/types as used by the runner)", "checks/unused_gen.py templates (validated: every package compiles)"],
     }
     ctx.assumptions = [
-        "vocabulary of Unused.tla (13 kinds, 11 relations); shapes outside it are reached only through the corpora",
+        "vocabulary of Unused.tla (13 kinds, 11 relations); shapes outside it (imports, function-local types, statements, ...) are reached only "
+        "through the corpora (unused/testdata, repository packages, the hand-written shapes module), where the permuter keeps every declaration in its file",
         "objects are identified by the position of their defining identifier (generated code) or by (kind, name) multisets (corpora)",
         "bounds: <= 6 objects, <= 3 references per graph; permutations sampled beyond 4 declarations; construction machine on seed graphs only",
     ]
